@@ -503,7 +503,7 @@ func c06idem(c *Ctx, apply *ssa.Function, reach map[*ssa.Function]*ssa.Function)
 				fresh := false
 				engine.Backward(msgs, engine.FlowOpts{AppendElems: true, AppendBase: true, Loads: true}, func(x ssa.Value) bool {
 					if call, ok := x.(*ssa.Call); ok {
-						if sc := call.Call.StaticCallee(); sc != nil && sc.Name() == "NewInternalMessageID" {
+						if sc := call.Call.StaticCallee(); sc != nil && engine.ShortName(sc) == "NewInternalMessageID" {
 							fresh = true
 						}
 					}
@@ -516,7 +516,7 @@ func c06idem(c *Ctx, apply *ssa.Function, reach map[*ssa.Function]*ssa.Function)
 										for _, st := range engine.StoresTo(fa) {
 											for _, s := range valueSources(st.Val) {
 												if call, ok := s.(*ssa.Call); ok {
-													if sc := call.Call.StaticCallee(); sc != nil && sc.Name() == "NewInternalMessageID" {
+													if sc := call.Call.StaticCallee(); sc != nil && engine.ShortName(sc) == "NewInternalMessageID" {
 														fresh = true
 													}
 												}
@@ -649,7 +649,7 @@ func c06recovery(c *Ctx, apply *ssa.Function) {
 				if cc.IsInvoke() && engine.IsNamed(cc.Value.Type(), "db", "Transaction") && isWriteMethod(cc.Method.Name()) {
 					writes = append(writes, cs.Instr)
 				}
-				if sc := cc.StaticCallee(); sc != nil && (sc.Name() == "AddMessagesToMailbox" || sc.Name() == "applyMessagesAddedToMailbox") {
+				if sc := cc.StaticCallee(); sc != nil && (engine.ShortName(sc) == "AddMessagesToMailbox" || engine.ShortName(sc) == "applyMessagesAddedToMailbox") {
 					writes = append(writes, cs.Instr)
 				}
 			}
